@@ -132,11 +132,20 @@ ReadMissing ==
                              ELSE [py |-> "dict", type |-> "", items |-> <<>>]>>))))
 
 \* d[p]["__verif__"] = value : keys of the form __name__ are never printed
+HiddenNames == {"__verif__", "__layer_id__", "__rule2__", "__X__", "__a.b__"}
 SetHidden ==
+    \E p \in Pick(BlockPaths(cur)), n \in Pick(HiddenNames) :
+      Commit([k |-> "sethidden", path |-> p, key |-> n], cur)
+\* ... also inside a key-value block: d[p]["metadata"]["__origin_file__"] = value
+KVKeysOf(b) == {i \in 1..Len(b.items) : b.items[i][2].py = "dict" /\ b.items[i][2].type \in KVTypes}
+SetHiddenKV ==
     \E p \in Pick(BlockPaths(cur)) :
-      Commit([k |-> "sethidden", path |-> p, key |-> "__verif__"], cur)
+      LET b == GetAt(cur, p) IN
+      /\ KVKeysOf(b) # {}
+      /\ \E i \in Pick(KVKeysOf(b)), n \in Pick(HiddenNames) :
+           Commit([k |-> "sethiddenkv", path |-> p, kv |-> b.items[i][1], key |-> n], cur)
 
-Edit == done /\ nedits < MaxEdits /\ (SetHidden \/ SetAttr \/ DelKey \/ AddChild \/ RemoveChild \/ ReorderChildren \/ ReadMissing)
+Edit == done /\ nedits < MaxEdits /\ (SetHidden \/ SetHiddenKV \/ SetAttr \/ DelKey \/ AddChild \/ RemoveChild \/ ReorderChildren \/ ReadMissing)
 
 EFinish ==
     /\ ~done
